@@ -36,3 +36,18 @@ Theorem C12_sorted_output_any_map_order : forall (E : Type) (lt : E -> E -> bool
   ssort E lt l1 = ssort E lt l2.
 Proof. exact sorted_output_any_map_order. Qed.
 Print Assumptions C12_sorted_output_any_map_order.
+
+(* ---- D19: `variants --reference ID` with the alignment on stdin waits for the first record (StdinSelect.v) ---- *)
+From GF Require Import StdinSelect.
+(* whatever the moment at which the main goroutine reaches its select - the reader may have pushed any number of the n >= 1
+   records into the channel buffer and may already be offering its done signal -, the repaired select takes the record *)
+Theorem C12_stdin_select_takes_the_record : forall n m, (0 < n)%nat -> reachable n m -> forall o, In o (new_select n m) -> o = TookRecord.
+Proof. exact new_select_takes_the_record. Qed.
+Print Assumptions C12_stdin_select_takes_the_record.
+Theorem C12_stdin_select_empty_pipe : forall m, reachable 0 m -> forall o, In o (new_select 0 m) -> o = SawDone.
+Proof. exact new_select_empty. Qed.
+Print Assumptions C12_stdin_select_empty_pipe.
+(* the plain select of the pinned code could report an empty pipe for a short alignment that sits wholly in the buffer *)
+Theorem C12_old_stdin_select_refuted : exists n m, (0 < n)%nat /\ reachable n m /\ In SawDone (old_select n m).
+Proof. exact old_select_refuted. Qed.
+Print Assumptions C12_old_stdin_select_refuted.
